@@ -15,6 +15,9 @@ func TestMain(m *testing.M) { kit.Main(m) }
 // min-runtime settings on leaves and ancestors, both resolve methods, elastic workloads.
 func profile() sim.Profile {
 	pf := sim.DefaultProfile()
+	// priority classes change and workloads are given another class between cycles (priority and default preemptibility follow)
+	pf.PMutations = 3
+	pf.MutationKinds = []string{"pc-set", "pg-priorityclass"}
 	pf.MaxNodes = 3
 	pf.MaxGroups = 10
 	pf.PRunning = 8
